@@ -1637,10 +1637,49 @@ Section Routes2.
       exists a', b'. split; [exact E'|]. split; symmetry; apply msub_projr; assumption.
     - apply msub_projl_nodup, B2.
   Qed.
+
+  (* NEW (since flush_wrapping keeps the markers left on the unfinished line of the wrapping
+     block, FragStream.c14_lines_from_read_any_overflow): the same two statements WITHOUT the
+     hypothesis c_overflow c = false *)
+  Theorem c14_dom_lines_any_overflow :
+    forall (c : config) (doc : list node) (width : N) (tls : list tline),
+    deco_made (c_deco c) ->
+    dom_regular doc = true -> dom_ntab doc = true -> doc_plain inline_styles doc_rules c doc = true ->
+    lines_from_read inline_styles doc_rules c doc width = Ok tls ->
+    btw (dom_live doc) (flat_map mline tls) (dom_all doc).
+  Proof.
+    intros c doc width tls Hd Hr Hn Hp H.
+    destruct (to_render_tree inline_styles doc_rules c doc) as [tree| | |] eqn:Et;
+      try (unfold lines_from_read in H; rewrite Et in H; discriminate H).
+    destruct (c14_dom_tree c doc tree Hd Hr Hn Hp Et) as (Hnt & Hlo & Hhi).
+    destruct (c14_lines_from_read_any_overflow _ _ _ _ _ _ _ (dm_prefix _ Hd) Et Hnt H) as [B1 B2].
+    split; eapply msub_trans; eassumption.
+  Qed.
+
+  Corollary c14_dom_markers_any_overflow :
+    forall (c : config) (doc : list node) (width : N) (tls : list tline),
+    deco_made (c_deco c) ->
+    dom_regular doc = true -> dom_ntab doc = true -> doc_plain inline_styles doc_rules c doc = true ->
+    lines_from_read inline_styles doc_rules c doc width = Ok tls ->
+    let O := flat_map mline tls in
+    projr O = dom_visible doc /\
+    (forall a name b, O = a ++ inl name :: b ->
+       exists a' b', dom_all doc = a' ++ inl name :: b' /\ projr a' = projr a /\ projr b' = projr b) /\
+    (forall a name b, dom_live doc = a ++ inl name :: b ->
+       exists a' b', O = a' ++ inl name :: b' /\ projr a' = projr a /\ projr b' = projr b) /\
+    (NoDup (projl (dom_all doc)) -> NoDup (projl O)).
+  Proof.
+    intros c doc width tls Hd Hr Hn Hp H O.
+    destruct (markers_of_btw _ _ _ (c14_dom_lines_any_overflow c doc width tls Hd Hr Hn Hp H))
+      as (A & B & C & D). fold O in A, B, C, D.
+    split; [rewrite A; apply projr_dom_all|]. split; [exact B|]. split; [exact C|exact D].
+  Qed.
 End Routes2.
 Print Assumptions c14_dom_tree.
 Print Assumptions c14_dom_lines.
 Print Assumptions c14_dom_markers.
+Print Assumptions c14_dom_lines_any_overflow.
+Print Assumptions c14_dom_markers_any_overflow.
 
 (* ================================================================== *)
 (* 4. PART 3 (C13) -- whitespace runs in the text nodes of the DOM      *)
